@@ -147,7 +147,8 @@ class FileSeam:
         if "b" in mode:
             raise HarnessError("file seam: binary mode is not modelled")
         fid = len(self.files)
-        self.files.append((os.fspath(path), mode))
+        # (absolute at the moment of opening: a relative name means something else once the working directory changes)
+        self.files.append((os.path.abspath(os.fspath(path)) if not isinstance(path, int) else path, mode))
         self.events.append((fid, "open", mode))
         if self.ctx is not None:
             self.ctx.ev("file-open", os.path.basename(os.fspath(path)), mode)
@@ -195,7 +196,7 @@ class FileSeam:
 
     def ops_of(self, fid):
         """The write-side operations of one file, in order (open excluded)."""
-        return [(k, a) for f, k, a in self.events if f == fid and k in ("write", "seek", "close", "flush")]
+        return [(k, a) for f, k, a in self.events if f == fid and k in ("write", "seek", "close", "flush", "truncate")]
 
 
 def image_after(ops, n_ops: int, torn_bytes: int | None = None) -> bytes:
